@@ -54,3 +54,36 @@ Fixpoint first_diff (a b : list (list (N * list ev))) (k : nat) : nat :=
   | _, _ => k
   end.
 Definition w_first_diff (c : wcase) : nat := first_diff (run rinit (w_ops c)) (w_obs c) 0.
+
+(** ** Router programs with plugins and Handlers() calls (Router/Life.v) *)
+From WM Require Import Router.Life.
+Record lcase := LC { l_pops : list pop; l_obs : list pobs }.
+
+Fixpoint nremove (x : N) (l : list N) : option (list N) :=
+  match l with
+  | [] => None
+  | y :: l' => if N.eqb x y then Some l' else match nremove x l' with Some r => Some (y :: r) | None => None end
+  end.
+Fixpoint nperm_eqb (a b : list N) : bool :=
+  match a with
+  | [] => match b with [] => true | _ => false end
+  | x :: a' => match nremove x b with Some b' => nperm_eqb a' b' | None => false end
+  end.
+Definition pobs_eqb (a b : pobs) : bool :=
+  match a, b with
+  | PDel x, PDel y => perm_eqb x y
+  | PPlug i o, PPlug j p => list_eqb N.eqb i j && Bool.eqb o p
+  | PNames x, PNames y => nperm_eqb x y
+  | _, _ => false
+  end.
+(** model ([prun]: Run with its plugin loop, Handlers(), the registration machine) vs implementation *)
+Definition l_mismatch (c : lcase) : bool := negb (list_eqb pobs_eqb (prun pinit (l_pops c)) (l_obs c)).
+Definition l_mismatches (cs : list lcase) : list nat := positions (map l_mismatch cs).
+(** the Wiring case a Router program amounts to (theorem life_is_wiring) *)
+Definition lc_wc (c : lcase) : wcase := WC (effective_ops (l_pops c)) (del_obs (l_obs c)).
+(** plugins: called once, by Run, in order, up to the first error; Handlers(): the names held *)
+Definition life_violates (c : lcase) : bool :=
+  negb (list_eqb pobs_eqb (plug_obs (l_obs c)) (spec_plug [] (l_pops c)))
+  || negb (list_eqb nperm_eqb (name_obs (l_obs c)) (spec_views [] (l_pops c))).
+Definition c08_lviolates (c : lcase) : bool := c08_violates (lc_wc c) || life_violates c.
+Definition c08_lviolations (cs : list lcase) : list nat := positions (map c08_lviolates cs).
